@@ -450,6 +450,8 @@ class Operator:
             )
         else:
             self._convergenceSummary = collections.defaultdict(list)
+            # nothing has converged before the first iteration (and none runs for a cap of zero)
+            converged = False
             for coupledIteration in range(self.cs[CONF_TIGHT_COUPLING_MAX_ITERS]):
                 self.r.core.p.coupledIteration = coupledIteration + 1
                 converged = self.interactAllCoupled(coupledIteration)
